@@ -94,7 +94,7 @@ func newContracts() *Contracts {
 	return &Contracts{Funcs: map[string]*FuncContract{}, Ghosts: map[string]*GhostFn{}, Preds: map[string]*Pred{}, Sources: map[string]string{}}
 }
 
-var reHeader = regexp.MustCompile(`^(func|extern|iface|field)\s+(.+?)\(([^)]*)\)\s*(?:\(([^)]*)\))?\s*$`)
+var reHeader = regexp.MustCompile(`^(func|extern|iface|field|paramfunc)\s+(.+?)\(([^)]*)\)\s*(?:\(([^)]*)\))?\s*$`)
 var reTag = regexp.MustCompile(`^\[([A-Za-z0-9_,]*)(?::([^\]]+))?\]\s*`)
 var reLoop = regexp.MustCompile(`^loop\s+(\d+)\s*:\s*invariant\s+(.*)$`)
 var reCall = regexp.MustCompile(`^call\s+([A-Za-z0-9_.$]+)#(\d+)\s*:\s*(assert|after)\s+(.*)$`)
@@ -196,6 +196,11 @@ func (cs *Contracts) parseLine(cur **FuncContract, t, path string, ln int, pkgPa
 			Loops: map[int][]*Clause{}, Flags: map[string]bool{}, Props: map[string]bool{}, File: path, Line: ln, PkgPath: pkgPath}
 		if m[1] == "field" {
 			fc.Key = "field:" + canonKeyField(pkgPath, m[2])
+		}
+		if m[1] == "paramfunc" {
+			// paramfunc (*T).Method.param(...) : contract assumed for calls through that func-typed parameter
+			i := strings.LastIndex(m[2], ".")
+			fc.Key = "param:" + canonKey(pkgPath, m[2][:i]) + "." + m[2][i+1:]
 		}
 		if old, dup := cs.Funcs[fc.Key]; dup {
 			return errf("duplicate contract for %s (first at %s:%d)", fc.Key, old.File, old.Line)
